@@ -15,6 +15,8 @@ clause -> what is compared
                              must still give their own concept sets
 """
 
+import itertools
+
 from .. import common, e1, space
 
 ID = 'C03'
@@ -27,7 +29,7 @@ RULE = ('every boolean table of every shape n x m with n*m <= B (quick B=12, tho
 ASSUMPTIONS = ['R1 (mc/refmodel.py) implements the textbook definitions; its three concept '
                'enumerations are cross-checked on every table',
                'labels are opaque strings; two labelings (ascending/descending) are explored']
-HITS = ('hit_all_cross', 'hit_nonempty_bottom', 'hit_sibling_schedule')
+HITS = ('hit_all_cross', 'hit_nonempty_bottom', 'hit_sibling_schedule', 'hit_use_history')
 BUDGET = {'quick': 240, 'thorough': 3000}
 
 
@@ -81,6 +83,29 @@ def check_case(case, ctr):
             bad('all-cross-one-concept', 1, len(got))
     if ref.closure_objs(()):
         ctr['hit_nonempty_bottom'] += 1
+    # a history of read-only uses of the same lattice object (joins and meets of every pair and of
+    # the empty family, lookups by non-closed object / property sets, traversals, printing) must
+    # leave iteration and len as they were
+    if case.labeling == space.ASC and case.n * case.m <= 16:
+        ctr['hit_use_history'] += 1
+        cs = list(lat)[:12]
+        for x in cs:
+            for y in cs:
+                lat.join([x, y]); lat.meet([x, y]); x | y; x & y
+        lat.join([]); lat.meet([]); lat.join(cs); lat.meet(cs)
+        for r in (1, 2):
+            for sub in itertools.combinations(case.objs[:6], r):
+                lat[sub]
+            for sub in itertools.combinations(case.props[:6], r):
+                lat(sub)
+        lat[()]; lat(())
+        list(lat.upset_union(cs[:3])); list(lat.downset_union(cs[:3]))
+        str(lat); repr(lat); lat.atoms
+        ctr['calls'] += 4 * len(cs) ** 2 + 12
+        got3 = [(frozenset(c.extent), frozenset(c.intent)) for c in lat]
+        if got3 != got or len(lat) != len(got3) or len(got3) != len(exp):
+            bad('len-and-iteration-after-use-history', [len(exp), sorted(map(_pp, exp))],
+                [len(lat), sorted(map(_pp, got3))])
     # a sub-lattice requested (or its construction failing) first must not change context.lattice
     if case.variant == 'fresh' and case.labeling == space.ASC and case.n * case.m <= 9:
         from concepts import lattices
